@@ -241,6 +241,69 @@ Theorem C01_reader_areas_derived : forall derived computed rs s0, lz_areas s0 = 
 Proof. exact c01_reader_areas_derived. Qed.
 Print Assumptions C01_reader_areas_derived.
 
+(* ---- round trips with boolean well-formedness: decode (encode_dialect faces) presents exactly faces ---- *)
+Theorem C01_faces_of_std : forall n w faces, c01_wf_faces n w faces -> c01_faces_of (c01_std w faces) = faces.
+Proof. exact c01_faces_of_std. Qed.
+Print Assumptions C01_faces_of_std.
+
+Theorem C01_wf_facesb_sound : forall n w faces, c01_wf_facesb n w faces = true -> c01_wf_faces n w faces.
+Proof. exact c01_wf_facesb_ok. Qed.
+Print Assumptions C01_wf_facesb_sound.
+
+Theorem C01_ugrid_roundtrip : forall d s fe n w faces,
+  c01_ugrid_dialect_okb d s fe n faces = true -> c01_wf_facesb n w faces = true ->
+  c01_faces_of (c01_ugrid_conn d (c01_encode s fe w faces)) = faces.
+Proof. exact c01_ugrid_roundtrip. Qed.
+Print Assumptions C01_ugrid_roundtrip.
+
+Theorem C01_topology_roundtrip : forall std s fe n w faces (with_fill : bool),
+  (0 <=? s) && (n + s <=? c01_BOUND) && c01_fill_okb s n fe = true ->
+  c01_wf_facesb n w faces = true ->
+  (with_fill = false -> forallb (fun f => (length f =? w)%nat) faces = true) ->
+  c01_faces_of (fst (c01_topo_conn std (if with_fill then Some fe else None) s (c01_encode s fe w faces))) = faces.
+Proof. exact c01_topo_roundtrip. Qed.
+Print Assumptions C01_topology_roundtrip.
+
+Theorem C01_mpas_roundtrip : forall zeros n w faces, c01_wf_facesb n w faces = true ->
+  c01_faces_of (c01_mpas_padded (c01_mpas_encode zeros w faces) (map (fun f => Z.of_nat (length f)) faces)) = faces.
+Proof. exact c01_mpas_roundtrip. Qed.
+Print Assumptions C01_mpas_roundtrip.
+
+Theorem C01_esmf_roundtrip : forall attr s n w faces,
+  (n <=? c01_BOUND) && ((s =? 0) || (s =? 1)) && match attr with Some a => a =? s | None => s =? 1 end = true ->
+  c01_wf_facesb n w faces = true ->
+  c01_faces_of (c01_esmf attr (c01_esmf_encode s w faces) (map (fun f => Z.of_nat (length f)) faces)) = faces.
+Proof. exact c01_esmf_roundtrip. Qed.
+Print Assumptions C01_esmf_roundtrip.
+
+Theorem C01_exodus_roundtrip : forall n w (blocks : list (nat * list (list Z))),
+  forallb (fun b => (fst b <=? w)%nat && c01_wf_facesb n (fst b) (snd b)) blocks = true ->
+  c01_faces_of (c01_exodus w (map (fun b => c01_exo_enc_block (fst b) (snd b)) blocks)) = concat (map snd blocks).
+Proof. exact c01_exodus_roundtrip. Qed.
+Print Assumptions C01_exodus_roundtrip.
+
+Theorem C01_icon_roundtrip : forall k n rows,
+  forallb (fun r => (length r =? k)%nat) rows && c01_wf_facesb n k rows = true ->
+  c01_faces_of (c01_icon (length rows) (c01_icon_encode k rows)) = rows.
+Proof. exact c01_icon_roundtrip. Qed.
+Print Assumptions C01_icon_roundtrip.
+
+Theorem C01_scrip_roundtrip : forall w (faces : list (list (Z * Z))),
+  Forall (fun f => f <> [] /\ (length f <= w)%nat /\ NoDup f) faces ->
+  c01_faces_pos (FILL, FILL) (fst (c01_scrip (c01_scrip_encode w faces) w)) (snd (c01_scrip (c01_scrip_encode w faces) w)) = faces.
+Proof. exact c01_scrip_roundtrip. Qed.
+Print Assumptions C01_scrip_roundtrip.
+
+(* ---- UGRID dimension renaming (known finding C01-ugrid-edge-dim) ---- *)
+Theorem C01_ugrid_dims : forall a b c e, c01_ugrid_dims a b c e = (true, true, e).
+Proof. exact c01_ugrid_dims_spec. Qed.
+Print Assumptions C01_ugrid_dims.
+
+Theorem C01_ugrid_edge_dim_refuted :
+  exists attr_edge has_edge_lon, attr_edge = true /\ snd (c01_ugrid_dims true true attr_edge has_edge_lon) <> true.
+Proof. exact c01_ugrid_edge_dim_refuted. Qed.
+Print Assumptions C01_ugrid_edge_dim_refuted.
+
 (* ---- format sniffing ---- *)
 Theorem C01_sniff : forall k,
   (c01_sniff k = 0 <-> k_coord k = true \/ k_coordx k = true) /\
